@@ -206,7 +206,8 @@ def get_Werner_eof(dim:int, alpha:np.ndarray|float):
     if np.any(ind0):
         a = a[ind0]
         tmp0 = (1-np.sqrt(1-a*a))/2
-        ret[ind0] = -tmp0*np.log(tmp0) - (1-tmp0)*np.log(1-tmp0)
+        # entr(x)=-x*log(x) with entr(0)=0, avoid 0*log(0)=nan just above the separable threshold
+        ret[ind0] = scipy.special.entr(tmp0) + scipy.special.entr(1-tmp0)
     ret = ret.reshape(shape)
     return ret
 
@@ -295,8 +296,9 @@ def get_Isotropic_eof(dim:int, alpha:np.ndarray|float):
     F = (1+alpha*dim*dim-alpha)/(dim*dim)
     ind0 = np.logical_and(F>1/dim, F<=(4*(dim-1)/(dim*dim)))
     if np.any(ind0):
-        gamma = (np.sqrt(F[ind0])+np.sqrt((dim-1)*(1-F[ind0])))**2/dim
-        tmp0 = -gamma*np.log(gamma) - (1-gamma)*np.log(1-gamma)
+        gamma = np.minimum(1, (np.sqrt(F[ind0])+np.sqrt((dim-1)*(1-F[ind0])))**2/dim)
+        # entr(x)=-x*log(x) with entr(0)=0, avoid 0*log(0)=nan just above the separable threshold
+        tmp0 = scipy.special.entr(gamma) + scipy.special.entr(1-gamma)
         tmp1 = (1-gamma)*np.log(dim-1)
         ret[ind0] = tmp0 + tmp1
     ind1 = F>(4*(dim-1)/(dim*dim))
